@@ -12,7 +12,7 @@ Failed(p) == Done(p) /\ ~proc[p].result[1].ok
 
 \* a timeout that can still fire: its select has started waiting (the clock may be capped by MaxTick)
 PendingTimeout(P) == /\ P.live /\ P.sel # None /\ P.result = None /\ P.sel[1].start # None
-                     /\ \E i \in 1..Len(P.sel[1].srcs) : P.sel[1].srcs[i].k = "timeout"
+                     /\ \E i \in 1..Len(P.sel[1].srcs) : Fires(P.sel[1].srcs[i])
 
 \* nothing is in flight, nothing is runnable, and no clock advance can change that
 Quiescent ==
@@ -39,7 +39,7 @@ Settled == Quiescent => \A p, q \in Pids : Len(FromP(q, p)) = Len(obs.sent[p][q]
 \* ... and a timeout whose select never started its timer would never fire: that is a lost wake-up too
 ReadyQ(p, src) ==
   IF src.k = "await" THEN Done(src.t)
-  ELSE IF src.k = "timeout" THEN TRUE
+  ELSE IF src.k = "timeout" THEN Fires(src)
   ELSE SrcReady(proc[p], src, now)
 
 NoLostWakeup ==
